@@ -17,7 +17,7 @@
  *   STOP     stop_all_writers()                                 -> "STOP"
  *   JOIN     open all gates for good, pthread_join the writers  -> "JOIN"
  *   FLUSH    flush_shmem_list(); record_remaining_buffer()      -> "FLUSH"
- *   SNAP     -> "SNAP shl=<ids> bwl=<ids> lost=<n> w=<tid|->:<ids>;..."   ids = tid:idx,...
+ *   SNAP     -> "SNAP shl=<ids> bwl=<ids> lost=<n> kicks=<n> w=<tid|->:<ids>;..."   ids = tid:idx,...
  *   QUIT
  * soak mode: RUN = the loop of do_main_loop/stop_tracing/finish_writers on the FIFO with free-running
  * writers; seeded random delays are injected at poll/open/munmap/pthread_mutex_lock.  -> "DONE lost=<n>"
@@ -271,7 +271,13 @@ static void snapshot(void)
 	real_mutex_lock(&write_list_lock);
 	printf(" bwl=");
 	print_buf_ids(&buf_write_list);
-	printf(" lost=%d w=", shmem_lost_count);
+	{
+		/* wake-ups waiting in the thread_ctl pipe (4 bytes each); 0 once stop_all_writers closed it */
+		int pending = 0;
+		if (thread_ctl[1] >= 0 && ioctl(thread_ctl[0], FIONREAD, &pending) < 0)
+			pending = -4;
+		printf(" lost=%d kicks=%d w=", shmem_lost_count, thread_ctl[1] >= 0 ? pending / 4 : 0);
+	}
 	for (i = 0; i < nr_writers; i++) {
 		int reg = 0;
 		list_for_each_entry(w, &writer_list, list)
